@@ -1,8 +1,9 @@
 ---------------------------- MODULE Callbacks_MC ----------------------------
 EXTENDS Callbacks
-CB == [all : BOOLEAN, den : {{}, {1}, {1, 2}}, out : BOOLEAN, raises : BOOLEAN]
+CB == [all : BOOLEAN, den : {{}, {1}, {1, 2}}, out : BOOLEAN, raises : BOOLEAN, fn : {1}]
 Next == \/ \E c \in CB : Len(cbs) < 2 /\ Register(c)
         \/ \E k \in 1..2 : Unregister(k)
+        \/ \E k \in 1..2, S \in {{1}, {2}} : Edit(k, S)
         \/ \E d \in 0..2, o \in BOOLEAN : Process(d, o)
 Spec == Init /\ [][Next]_vars
 ExactlyOnceEach == \A a, b \in 1..Len(called) : a < b => called[a] < called[b]
